@@ -10,7 +10,9 @@ N = {"quick": 220, "thorough": 4000}
 RULE = ("random register layouts (1-6 mock registers, widths 0..4*dw+3, r/w/rw, padded, naturally aligned and unaligned "
         "placements, shadow_overlaps in {None,0,1,2,3}); stimulus = transaction stream (whole-register ascending reads/writes, "
         "aborts, idle gaps, simultaneous read+write, unmapped addresses) or every input bit random, register values change "
-        "every cycle; non-trivial = >= 2 registers, >= 1 completed multi-chunk read and >= 1 completed multi-chunk write")
+        "every cycle; about 30 % of the cases assert the synchronous reset in 1-3 cycles (preferably while a write strobe "
+        "or a read is pending or between the chunks of a multi-chunk access, often with the bus inputs held through it); "
+        "non-trivial = >= 2 registers, >= 1 completed multi-chunk read and >= 1 completed multi-chunk write")
 
 
 def ceil_log2(n):
@@ -92,12 +94,79 @@ def gen_case(seed, tier, idx):
     cfg = gen_layout(rnd, tier)
     kind = ["txn", "txn", "txn", "random", "random"][idx % 5]
     T = rnd.choice([200, 300]) if tier == "quick" else rnd.choice([300, 600])
-    return {"engine": "mux", "kind": kind, "cfg": cfg, "stim": gen_stim(rnd, cfg, T, kind)}
+    case = {"engine": "mux", "kind": kind, "cfg": cfg, "stim": gen_stim(rnd, cfg, T, kind)}
+    # mid-run synchronous resets come from a random stream of their own: the cases without one are exactly
+    # those generated before resets existed
+    rr = mkrnd(seed, "mux-reset", idx)
+    if len(case["stim"]) > 20 and rr.random() < 0.3:
+        case["resets"] = gen_resets(rr, cfg, case["stim"])
+    return case
+
+
+def gen_resets(rr, cfg, stim):
+    """1-3 cycles in which the synchronous reset is asserted, preferably (a) in the cycle of a write to the last
+    address of a writable register (its write strobe is pending), (b) in the cycle of a read of a readable
+    register (the delayed chunk select is pending, and for a first chunk the capture is lost), (c) in the
+    cycle of an access to a non-last chunk of a multi-chunk register (transaction in progress, the chunks
+    already transferred are forgotten).  Half of the time the bus inputs and register values of the reset cycle
+    are held for one more cycle (a row is inserted), otherwise the stream simply goes on."""
+    regs = cfg["regs"]
+    T = len(stim)
+    span = range(3, T - 3)
+    pend_w = [t for t in span if stim[t][2] and any(r[4] and stim[t][0] == r[1] - 1 for r in regs)]
+    pend_r = [t for t in span if stim[t][1] and reg_at(regs, stim[t][0], 3) is not None]
+    mid = [t for t in span if (stim[t][1] or stim[t][2])
+           and any(r[1] - r[0] >= 2 and r[0] <= stim[t][0] < r[1] - 1 for r in regs)]
+    picks = set()
+    for _ in range(rr.choice([1, 1, 2, 3])):
+        pool = rr.choice([pend_w, pend_w, pend_r, pend_r, mid, mid, mid, list(span)])
+        picks.add(rr.choice(pool or list(span)))
+    out, shift = [], 0
+    for r in sorted(picks):
+        r += shift
+        out.append(r)
+        if rr.random() < 0.5:
+            stim.insert(r + 1, [stim[r][0], stim[r][1], stim[r][2], stim[r][3], list(stim[r][4])])
+            shift += 1
+    return out
 
 
 def to_model(case):
     cfg = case["cfg"]
     return [cfg["dw"], cfg["regs"], [] if cfg["ov"] is None else [cfg["ov"]], case["stim"]]
+
+
+def _segments(case):
+    """[(first, last)] cycle ranges; a segment ends with the cycle in which the reset is asserted (a reset in the
+    very last cycle has no observable consequence and is not applied)"""
+    rs = sorted(set(r for r in case.get("resets", []) if 0 <= r < len(case["stim"]) - 1))
+    out, a = [], 0
+    for r in rs:
+        out.append((a, r)); a = r + 1
+    out.append((a, len(case["stim"]) - 1))
+    return out
+
+
+def _reset_cycles(case):
+    return [b for (a, b) in _segments(case)[:-1]] if case["stim"] else []
+
+
+def model_cases(case):
+    """A mid-run synchronous reset starts the model again from its initial state: one model run per segment."""
+    if not case["stim"]:
+        return [to_model(case)]
+    cfg = case["cfg"]
+    return [[cfg["dw"], cfg["regs"], [] if cfg["ov"] is None else [cfg["ov"]], case["stim"][a:b + 1]]
+            for (a, b) in _segments(case)]
+
+
+def model_join(case, results):
+    """shadow sizes are a function of the layout alone (first segment); the rows are concatenated"""
+    rsize, wsize, rows = results[0]
+    rows = list(rows)
+    for r in results[1:]:
+        rows += r[2]
+    return [rsize, wsize, rows]
 
 
 def from_model(res):
@@ -138,9 +207,8 @@ def run_impl(case):
     outs = [mux.bus.r_data] + [regs[i].element.r_stb for i in rd_idx] \
         + [regs[i].element.w_stb for i in wr_idx] + [regs[i].element.w_data for i in wr_idx]
     stim = [row[:4] + [row[4][i] for i in rd_idx] for row in case["stim"]]
-    from amaranth.hdl import Fragment
-    frag = Fragment.get(mux, None)
-    rows = S.simulate(mux, ins, outs, stim, frag=frag)
+    # elaborated exactly once, inside simulate (Multiplexer.elaborate fills the shadows: not idempotent)
+    rows = S.simulate(mux, ins, outs, stim, reset_at=_reset_cycles(case))
     n = len(regs)
     obs = []
     for r in rows:
@@ -180,12 +248,17 @@ def oracle(case, obs):
     last_first = {}        # readable reg -> latest time of a first-chunk read
     last_other_first = -1
     last_write = {}        # address -> latest time written
+    resets = set(_reset_cycles(case))
     for t in range(T - 1):
         addr, rs, ws, wd, rvals = stim[t]
         o = tr[t]; nxt = tr[t + 1]
+        rst = t in resets
         for i, r in enumerate(regs):
+            # the read strobe is combinational: a reset cycle is a cycle like any other
             if r[3] and o[1][i] != int(bool(rs) and addr == r[0]):
                 out.append(("C04", t, f"register {i} r_stb={o[1][i]} with r_stb={rs} addr={addr} start={r[0]}"))
+            if rst:
+                continue
             if r[4] and nxt[2][i] != int(bool(ws) and addr == r[1] - 1):
                 out.append(("C05", t, f"register {i} w_stb={nxt[2][i]} one cycle after w_stb={ws} addr={addr} (last address {r[1]-1})"))
             if not r[4] and nxt[2][i] != 0:
@@ -195,6 +268,20 @@ def oracle(case, obs):
                 out.append(("C04", 0, "bus r_data non-zero at time 0"))
             if any(tr[0][2]):
                 out.append(("C05", 0, "write strobe at time 0"))
+        if rst:
+            # the cycle after a reset is a time 0 again: nothing has been read, nothing has been written,
+            # whatever the bus did in the reset cycle itself; transactions in progress are forgotten
+            if nxt[0] != 0:
+                out.append(("C04", t + 1, f"bus r_data={nxt[0]:#x} in the first cycle after a reset "
+                                          f"(reset cycle: r_stb={rs} addr={addr})"))
+            if any(nxt[2]):
+                out.append(("C05", t + 1, f"write strobe {nxt[2]} in the first cycle after a reset "
+                                          f"(reset cycle: w_stb={ws} addr={addr})"))
+            last_first.clear()
+            last_write.clear()
+            if len(out) > 12:
+                break
+            continue
         k = reg_at(regs, addr, 3) if rs else None
         if k is None and nxt[0] != 0:
             out.append(("C04", t, f"bus r_data={nxt[0]} after a cycle without a read of a readable register"))
@@ -264,8 +351,21 @@ def stats(case, obs):
          "unaligned_registers": 0}
     run_r = {}
     run_w = {}
-    for (addr, rs, ws, wd, rv) in stim:
+    resets = set(_reset_cycles(case))
+    if resets:
+        d.update({"cases_with_resets": 1, "resets": len(resets), "resets_write_strobe_pending": 0,
+                  "resets_read_pending": 0, "resets_inside_multi_chunk_access": 0, "resets_inputs_held": 0})
+    for t, (addr, rs, ws, wd, rv) in enumerate(stim):
         d["read_strobes"] += rs; d["write_strobes"] += ws
+        if t in resets:
+            # the access of the reset cycle is lost and every transaction in progress is forgotten
+            d["resets_write_strobe_pending"] += int(bool(ws) and any(r[4] and addr == r[1] - 1 for r in regs))
+            d["resets_read_pending"] += int(bool(rs) and reg_at(regs, addr, 3) is not None)
+            d["resets_inside_multi_chunk_access"] += int(bool(rs or ws) and any(
+                r[1] - r[0] >= 2 and r[0] <= addr < r[1] - 1 for r in regs))
+            d["resets_inputs_held"] += int(stim[t + 1][:4] == stim[t][:4])
+            run_r.clear(); run_w.clear()
+            continue
         if (rs or ws) and reg_at(regs, addr, 3) is None and reg_at(regs, addr, 4) is None:
             d["unmapped_accesses"] += 1
         for i, r in enumerate(regs):
@@ -296,7 +396,7 @@ def stats(case, obs):
 def describe(case):
     c = case["cfg"]
     return {"engine": "mux", "kind": case["kind"], "dw": c["dw"], "aw": c["aw"], "regs": c["regs"], "shadow_overlaps": c["ov"],
-            "cycles": len(case["stim"]), "first_cycles": case["stim"][:3]}
+            "cycles": len(case["stim"]), "resets": case.get("resets", []), "first_cycles": case["stim"][:3]}
 
 
 def shrink(case, fails):
@@ -307,4 +407,12 @@ def shrink(case, fails):
         if fails(c):
             best = c
             break
+    if best.get("resets"):
+        # only the resets that still fall inside the trace, then only those the failure needs
+        rs = _reset_cycles(best)
+        for r in list(rs):
+            c = dict(best); c["resets"] = [x for x in rs if x != r]
+            if fails(c):
+                rs = c["resets"]
+        best = dict(best); best["resets"] = rs
     return best
